@@ -1,1 +1,273 @@
-From V Require Import Common.NumFacts C16.Model C16.Proofs.
+(* C16 — property theorems only.  Each is closed by [exact <lemma>] and followed by
+   Print Assumptions.  gamma_UNIFAC, gamma_modified_UNIFAC, loggammacs_*, psi_*,
+   group_activity_coefficients are the terms generated from the source on this run
+   (Gen_kernels.v, Gen_wrappers.v).  Theorems over an arbitrary carrier K need no axioms;
+   theorems at KR (real exp / ln / x^(3/4)) use the standard library's real numbers. *)
+From V Require Import C16.Model C16.Proofs C16.ProofsR C16.GibbsDuhem C16.ProofsGD.
+From Coquelicot Require Import Coquelicot.
+From Coq Require Import Reals List Permutation Lia.
+From Coq Require Import Lra.
+Import ListNotations.
+
+(* ------------------------------------------------------------------ x_untouched *)
+(* the function used inside the flash solvers leaves the composition array it is given alone *)
+Theorem C16_x_untouched_UNIFAC : forall A (K : KOps A) x T inter gpsis mask qs rs Qs cg cQfs index w,
+  gamma_UNIFAC K x T inter gpsis mask qs rs Qs cg cQfs index = Ok w -> w_x w = x.
+Proof. intros A K. exact (wrapper_x_untouched K _ _ _ _). Qed.
+Print Assumptions C16_x_untouched_UNIFAC.
+
+Theorem C16_x_untouched_modified : forall A (K : KOps A) x T inter gpsis mask qs rs Qs cg cQfs index w,
+  gamma_modified_UNIFAC K x T inter gpsis mask qs rs Qs cg cQfs index = Ok w -> w_x w = x.
+Proof. intros A K. exact (wrapper_x_untouched K _ _ _ _). Qed.
+Print Assumptions C16_x_untouched_modified.
+
+(* ... hence Gamma(x, T) leaves the caller's object as it was, also when np.asarray aliases it *)
+Theorem C16_call_x_untouched : forall A (K : KOps A) x T c,
+  (forall a, call (gamma_UNIFAC K) x T a = Ok c -> c_x c = xval x) /\
+  (forall a, call (gamma_modified_UNIFAC K) x T a = Ok c -> c_x c = xval x).
+Proof.
+  intros A K x T c. split; intros a; apply call_x_untouched; intros w; unfold f_apply;
+    apply (wrapper_x_untouched K).
+Qed.
+Print Assumptions C16_call_x_untouched.
+
+(* every input is answered (no unbound local, whatever the sub-composition sums to) *)
+Theorem C16_wrappers_total : forall A (K : KOps A) x T gpsis mask qs rs Qs cg cQfs index,
+  (forall inter, exists w, gamma_UNIFAC K x T inter gpsis mask qs rs Qs cg cQfs index = Ok w) /\
+  (forall inter, exists w, gamma_modified_UNIFAC K x T inter gpsis mask qs rs Qs cg cQfs index = Ok w).
+Proof. intros A K x T gpsis mask qs rs Qs cg cQfs index. split; intros inter; apply (wrapper_total K). Qed.
+Print Assumptions C16_wrappers_total.
+
+(* ------------------------------------------------------------------ no_group_is_one *)
+Theorem C16_no_group_is_one : forall A (K : KOps A) x T gpsis mask qs rs Qs cg cQfs index w j,
+  ~ In j index ->
+  (forall inter, gamma_UNIFAC K x T inter gpsis mask qs rs Qs cg cQfs index = Ok w ->
+     length (w_gamma w) = length x /\ nth j (w_gamma w) (kone K) = kone K) /\
+  (forall inter, gamma_modified_UNIFAC K x T inter gpsis mask qs rs Qs cg cQfs index = Ok w ->
+     length (w_gamma w) = length x /\ nth j (w_gamma w) (kone K) = kone K).
+Proof.
+  intros A K x T gpsis mask qs rs Qs cg cQfs index w j Hn. split; intros inter H;
+    eapply (wrapper_no_group_is_one K); eauto.
+Qed.
+Print Assumptions C16_no_group_is_one.
+
+(* ------------------------------------------------------------------ f_eq_call *)
+Theorem C16_f_eq_call : forall A I (K : KOps A) (f : wfun (A:=A) (I:=I)) x T a,
+  (forall c, call f x T a = Ok c ->
+     exists w, f_apply f (xval x) T a = Ok w /\ c_gamma c = w_gamma w /\ c_gpsis c = w_gpsis w) /\
+  (forall w, f_apply f (xval x) T a = Ok w -> exists c, call f x T a = Ok c /\ c_gamma c = w_gamma w) /\
+  (forall e, call f x T a = Err e <-> f_apply f (xval x) T a = Err e).
+Proof.
+  intros A I K f x T a. split; [|split].
+  - intros c. apply call_eq_f.
+  - intros w. apply f_eq_call.
+  - intros e. apply call_err_iff.
+Qed.
+Print Assumptions C16_f_eq_call.
+
+(* the object __new__ hands out (ideal fallback included): obj(x, T) and obj.f(x, T, *obj.args) agree *)
+Theorem C16_obj_f_eq_call : forall A I (K : KOps A) (o : gobj (A:=A) (I:=I)) x T g xa,
+  obj_call K o x T = Ok (g, xa) ->
+  match obj_f K o (xval x) T with
+  | Ok (FScalar v) => length g = length (xval x) /\ forall i, nth i g v = v
+  | Ok (FArray v) => g = v
+  | Err _ => False
+  end.
+Proof. intros A I K. exact (obj_f_eq_call K). Qed.
+Print Assumptions C16_obj_f_eq_call.
+
+(* ------------------------------------------------------------------ ideal_one *)
+Theorem C16_ideal_one : forall xs : list R,
+  ideal_f KR = 1%R /\ ideal_fugacity_call KR = 1%R /\ mock_poyinting_call KR = 1%R /\
+  length (ideal_activity_call KR xs) = length xs /\
+  (forall i, nth i (ideal_activity_call KR xs) 1%R = 1%R) /\
+  (forall (f : wfun (A:=R) (I:=unit)) a, (length (a_index a) <= 1)%nat -> new_obj f a = ObjIdeal).
+Proof.
+  intros xs. unfold ideal_f, ideal_fugacity_call, mock_poyinting_call, ideal_activity_call.
+  change (kq KR 1) with (Q2R (1 # 1)). rewrite Q2R_1'.
+  repeat split; auto.
+  - apply repeat_length.
+  - intros i. revert i. induction (length xs); intros [|i]; simpl; auto.
+  - intros f a H. apply (proj1 (new_obj_kind f a) H).
+Qed.
+Print Assumptions C16_ideal_one.
+
+(* ------------------------------------------------------------------ comb_refines_literature *)
+Theorem C16_comb_refines_literature_UNIFAC : forall qs rs x i,
+  length qs = length x -> length rs = length x -> (i < length x)%nat ->
+  let V := (nth i rs 0 / dotR x rs)%R in
+  let F := (nth i qs 0 / dotR x qs)%R in
+  nth i (loggammacs_UNIFAC KR qs rs x) 0%R = lit_comb V V F (nth i qs 0%R).
+Proof. exact comb_UNIFAC_refines. Qed.
+Print Assumptions C16_comb_refines_literature_UNIFAC.
+
+Theorem C16_comb_refines_literature_modified : forall qs rs x i,
+  length qs = length x -> length rs = length x -> (i < length x)%nat ->
+  let V := (nth i rs 0 / dotR x rs)%R in
+  let F := (nth i qs 0 / dotR x qs)%R in
+  let Vp := (Rpow34 (nth i rs 0) / dotR (map Rpow34 rs) x)%R in
+  nth i (loggammacs_modified_UNIFAC KR qs rs x) 0%R = lit_comb Vp V F (nth i qs 0%R).
+Proof. exact comb_modified_refines. Qed.
+Print Assumptions C16_comb_refines_literature_modified.
+
+(* ------------------------------------------------------------------ pure_limit (combinatorial part) *)
+Theorem C16_pure_limit_comb : forall cs i, (i < length cs)%nat -> pure_at cs i ->
+  let c := nth i cs (mkChem 0 0 0 [] [] 0) in cr c <> 0%R -> cq c <> 0%R ->
+  nth i (loggammacs_UNIFAC KR (map cq cs) (map cr cs) (map cx cs)) 0%R = 0%R /\
+  nth i (loggammacs_modified_UNIFAC KR (map cq cs) (map cr cs) (map cx cs)) 0%R = 0%R.
+Proof.
+  intros cs i Hi P c Hr Hq. split.
+  - exact (comb_UNIFAC_pure cs i Hi P Hr Hq).
+  - exact (comb_modified_pure cs i Hi P Hr Hq).
+Qed.
+Print Assumptions C16_pure_limit_comb.
+
+(* ------------------------------------------------------------------ perm_equivariant (combinatorial part) *)
+Theorem C16_perm_equivariant_comb : forall cs cs', Permutation cs cs' ->
+  Permutation (combine cs (loggammacs_UNIFAC KR (map cq cs) (map cr cs) (map cx cs)))
+              (combine cs' (loggammacs_UNIFAC KR (map cq cs') (map cr cs') (map cx cs'))) /\
+  Permutation (combine cs (loggammacs_modified_UNIFAC KR (map cq cs) (map cr cs) (map cx cs)))
+              (combine cs' (loggammacs_modified_UNIFAC KR (map cq cs') (map cr cs') (map cx cs'))).
+Proof. intros cs cs' P. split; [exact (comb_UNIFAC_perm cs cs' P)|exact (comb_modified_perm cs cs' P)]. Qed.
+Print Assumptions C16_perm_equivariant_comb.
+
+(* ------------------------------------------------------------------ the wrapper evaluates the sub-system *)
+(* chemical j = index[i] receives the kernel's value for row i at the normalised sub-composition *)
+Theorem C16_wrapper_evaluates_subsystem : forall A (K : KOps A) x T inter gpsis mask qs rs Qs cg cQfs index w i j,
+  gamma_modified_UNIFAC K x T inter gpsis mask qs rs Qs cg cQfs index = Ok w ->
+  (1 < length index)%nat -> NoDup index -> nth_error index i = Some j -> (j < length x)%nat ->
+  let x_sub := snd (gather_loop K GatherIntoSub index x (ones K (length index))) in
+  let xsum := ksum K x_sub in
+  keqb K xsum (kzero K) = false ->
+  let xn := bc_10 (kdiv K) x_sub xsum in
+  let psis := psi_modified_UNIFAC K T inter in
+  nth j (w_gamma w) (kone K) =
+  nth i (group_activity_coefficients K xn cg (loggammacs_modified_UNIFAC K qs rs xn) Qs psis cQfs
+           (fill_group_psis K psis mask)) (kzero K).
+Proof. intros A K. exact (wrapper_group_value K _ _ _ _). Qed.
+Print Assumptions C16_wrapper_evaluates_subsystem.
+
+Theorem C16_wrapper_evaluates_subsystem_UNIFAC : forall A (K : KOps A) x T inter gpsis mask qs rs Qs cg cQfs index w i j,
+  gamma_UNIFAC K x T inter gpsis mask qs rs Qs cg cQfs index = Ok w ->
+  (1 < length index)%nat -> NoDup index -> nth_error index i = Some j -> (j < length x)%nat ->
+  let x_sub := snd (gather_loop K GatherIntoSub index x (ones K (length index))) in
+  let xsum := ksum K x_sub in
+  keqb K xsum (kzero K) = false ->
+  let xn := bc_10 (kdiv K) x_sub xsum in
+  let psis := psi_UNIFAC K T inter in
+  nth j (w_gamma w) (kone K) =
+  nth i (group_activity_coefficients K xn cg (loggammacs_UNIFAC K qs rs xn) Qs psis cQfs
+           (fill_group_psis K psis mask)) (kzero K).
+Proof. intros A K. exact (wrapper_group_value K _ _ _ _). Qed.
+Print Assumptions C16_wrapper_evaluates_subsystem_UNIFAC.
+
+(* ------------------------------------------------------------------ perm_equivariant (whole coefficient) *)
+(* gamma of the sub-system with groups (combinatorial x residual): every chemical keeps its value
+   when the list of chemicals (with its composition, group counts and Q-fraction rows) is permuted *)
+Theorem C16_perm_equivariant : forall Qs psis gpsis G cs cs', Permutation cs cs' ->
+  (forall c, In c cs -> length (cg c) = G) ->
+  Permutation (combine cs (gamma_sub_UNIFAC Qs psis gpsis cs)) (combine cs' (gamma_sub_UNIFAC Qs psis gpsis cs')) /\
+  Permutation (combine cs (gamma_sub_modified Qs psis gpsis cs)) (combine cs' (gamma_sub_modified Qs psis gpsis cs')).
+Proof. exact gamma_sub_perm. Qed.
+Print Assumptions C16_perm_equivariant.
+
+(* ------------------------------------------------------------------ pure_limit (whole coefficient) *)
+(* full statement: with the arrays __new__ derives (chem_Qfractions rows, masked psis) and positive
+   group parameters, gamma_i = 1 at x = e_i.  Not proved as such; see C16_pure_limit_partial. *)
+Definition C16_pure_limit_statement : Prop :=
+  forall (Qs : list R) (psis : list (list R)) (G : nat) (cs : list chem) (i : nat),
+  (i < length cs)%nat -> pure_at cs i -> length Qs = G ->
+  (forall c, In c cs -> length (cg c) = G /\ (forall k, 0 <= nth k (cg c) 0)%R) ->
+  (forall k, (k < G)%nat -> 0 < nth k Qs 0)%R ->
+  (forall k n, (k < G)%nat -> (n < G)%nat -> 0 < nth n (nth k psis []) 0)%R ->
+  map cQ cs = derive_cQfs KR (map cg cs) Qs ->
+  let gpsis := fill_group_psis KR psis (derive_mask KR (map cQ cs) G) in
+  let c := nth i cs chem0 in cr c <> 0%R -> cq c <> 0%R ->
+  nth i (gamma_sub_UNIFAC Qs psis gpsis cs) 0%R = 1%R /\ nth i (gamma_sub_modified Qs psis gpsis cs) 0%R = 1%R.
+
+(* proved: the limit holds whenever the stored reference term of chemical i is the mixture term at
+   pure i on the groups i contains (the literature's definition of Gamma_k^(i)).  Missing for the full
+   statement: deriving that hypothesis from the construction of chem_Qfractions / group_mask. *)
+Theorem C16_pure_limit_partial : forall Qs psis gpsis G cs i, (i < length cs)%nat -> pure_at cs i ->
+  (forall c, In c cs -> length (cg c) = G) ->
+  let c := nth i cs chem0 in cr c <> 0%R -> cq c <> 0%R ->
+  reference_is_pure_mixture Qs psis gpsis c ->
+  nth i (gamma_sub_UNIFAC Qs psis gpsis cs) 0%R = 1%R /\ nth i (gamma_sub_modified Qs psis gpsis cs) 0%R = 1%R.
+Proof. exact gamma_pure. Qed.
+Print Assumptions C16_pure_limit_partial.
+
+(* ------------------------------------------------------------------ gibbs_duhem_comb (binary mixtures) *)
+(* x1 dln(gamma1^C)/dx1 + x2 dln(gamma2^C)/dx1 = 0 along x2 = 1 - x1, for the translated kernels *)
+Theorem C16_gibbs_duhem_comb_binary : forall r1 r2 q1 q2 t,
+  (0 < r1 -> 0 < r2 -> 0 < q1 -> 0 < q2 -> 0 < t < 1 ->
+   t * Derive (fun u => nth 0 (loggammacs_UNIFAC KR [q1; q2] [r1; r2] [u; 1 - u]) 0) t +
+   (1 - t) * Derive (fun u => nth 1 (loggammacs_UNIFAC KR [q1; q2] [r1; r2] [u; 1 - u]) 0) t = 0)%R /\
+  (0 < r1 -> 0 < r2 -> 0 < q1 -> 0 < q2 -> 0 < t < 1 ->
+   t * Derive (fun u => nth 0 (loggammacs_modified_UNIFAC KR [q1; q2] [r1; r2] [u; 1 - u]) 0) t +
+   (1 - t) * Derive (fun u => nth 1 (loggammacs_modified_UNIFAC KR [q1; q2] [r1; r2] [u; 1 - u]) 0) t = 0)%R.
+Proof.
+  intros r1 r2 q1 q2 t. split.
+  - exact (gibbs_duhem_comb_UNIFAC r1 r2 q1 q2 t).
+  - exact (gibbs_duhem_comb_modified r1 r2 q1 q2 t).
+Qed.
+Print Assumptions C16_gibbs_duhem_comb_binary.
+
+(* full statement (n chemicals, combinatorial x residual), NOT proved: it is measured on the real
+   objects by the oracle of props/C16.py with central finite differences along e_a - e_b *)
+Definition shift_x (cs : list chem) (a b : nat) (h : R) : list chem :=
+  map (fun jc => let '(j, c) := jc in
+         mkChem (cx c + (if Nat.eqb j a then h else 0) - (if Nat.eqb j b then h else 0))%R
+                (cq c) (cr c) (cg c) (cQ c) (cl c)) (enum cs).
+Definition C16_gibbs_duhem_statement : Prop :=
+  forall (Qs : list R) (psis gpsis : list (list R)) (G : nat) (cs : list chem) (a b : nat),
+  a <> b -> (a < length cs)%nat -> (b < length cs)%nat -> length Qs = G ->
+  (forall c, In c cs -> (0 < cx c /\ 0 < cq c /\ 0 < cr c)%R /\ length (cg c) = G /\
+                        (forall k, 0 <= nth k (cg c) 0)%R /\ (exists k, 0 < nth k (cg c) 0)%R) ->
+  sum_over cs cx = 1%R ->
+  (forall k, (k < G)%nat -> 0 < nth k Qs 0)%R ->
+  (forall k n, (k < G)%nat -> (n < G)%nat -> 0 < nth n (nth k psis []) 0)%R ->
+  sum_over (enum cs) (fun ic =>
+     cx (snd ic) * Derive (fun h => ln (nth (fst ic) (gamma_sub_modified Qs psis gpsis (shift_x cs a b h)) 0)) 0)%R = 0%R /\
+  sum_over (enum cs) (fun ic =>
+     cx (snd ic) * Derive (fun h => ln (nth (fst ic) (gamma_sub_UNIFAC Qs psis gpsis (shift_x cs a b h)) 0)) 0)%R = 0%R.
+
+(* ------------------------------------------------------------------ non-vacuity *)
+Example C16_nonvacuous_pure :
+  let cs := [mkChem 1 (7/5) (23/25) (1%R :: nil) (1%R :: nil) 0; mkChem 0 2 3 (1%R :: nil) (1%R :: nil) 0] in
+  (0 < length cs)%nat /\ pure_at cs 0 /\ cr (nth 0 cs (mkChem 0 0 0 [] [] 0)) <> 0%R /\
+  cq (nth 0 cs (mkChem 0 0 0 [] [] 0)) <> 0%R.
+Proof.
+  simpl. split; [lia|]. split; [|split; lra].
+  intros [|[|j]] Hj; simpl in *; try reflexivity; lia.
+Qed.
+
+(* the hypotheses of C16_pure_limit_partial are met: water-like / alkane-like pair, one group each *)
+Example C16_nonvacuous_reference :
+  let cs := [mkChem 1 1 1 [1; 0] [1; 0] 0; mkChem 0 2 3 [0; 1] [0; 1] 0]%R in
+  (0 < length cs)%nat /\ pure_at cs 0 /\ (forall c, In c cs -> length (cg c) = 2%nat) /\
+  reference_is_pure_mixture [1; 2]%R [[1; 1]; [1; 1]]%R [[1; 0]; [0; 1]]%R (nth 0 cs chem0).
+Proof.
+  simpl. split; [lia|]. split; [|split].
+  - intros [|[|j]] Hj; simpl in *; try reflexivity; lia.
+  - intros c [E|[E|[]]]; subst; reflexivity.
+  - intros k Hk. destruct k as [|[|k]]; simpl in Hk; try lra.
+    2:{ destruct k; simpl in Hk; lra. }
+    unfold lg_groups, chem_lg, bc_11, bc_10, bc_21, bc_01, sum_axis1, umap1, umap2, matvec, vdot.
+    cbn [cg cQ map map2 transpose ksum fold_right kadd kmul kdiv ksub kneg kln kq keqb KR nth].
+    rewrite ?Q2R_0', ?Q2R_1'.
+    unfold Reqb.
+    repeat match goal with |- context [Req_EM_T ?a ?b] => destruct (Req_EM_T a b); try lra end.
+    repeat match goal with |- context [ln ?a] =>
+      lazymatch a with 1%R => fail | _ => replace a with 1%R by (field; lra) end end.
+    rewrite ln_1. field.
+Qed.
+
+Local Open Scope Q_scope.
+(* a wrapper run that takes the group path and returns (carrier option Q, affine stand-ins) *)
+Example C16_nonvacuous_wrapper :
+  exists w, gamma_UNIFAC (KS [mkSI 0 3 2; mkSI 0 (-1) 3; mkSI 0 1 2]) (some_vec [1 # 2; 1 # 4; 1 # 4]) (Some 350)
+              (some_mat [[0; 300]; [200; 0]]) (some_mat [[0; 0]; [0; 0]]) [[true; false]; [false; true]]
+              (some_vec [1; 2]) (some_vec [1; 3]) (some_vec [1; 2]) (some_mat [[1; 0]; [0; 1]])
+              (some_mat [[1; 0]; [0; 1]]) [0%nat; 2%nat] = Ok w /\
+            all_some (w_gamma w) = true /\ nth 1 (w_gamma w) None = Some 1.
+Proof. eexists. split; [vm_compute; reflexivity|]. split; vm_compute; reflexivity. Qed.
